@@ -1,0 +1,4 @@
+// Package verifhook is a registry for verification hooks. It is empty unless
+// the module is built with the "verif" build tag; nothing imports it when the
+// tag is off.
+package verifhook
